@@ -1318,7 +1318,59 @@ pub fn c09_failed_write_before_stale_hangup(rec: &mut Rec, rng: &mut Rng) {
     sim.w.teardown();
 }
 
+/// a neighbour has a standing backlog of small pipelined requests (40 per read, several reads' worth) and became
+/// readable first; the witness sends ONE request: it is yielded by the very next poll, and answered — however many
+/// requests the neighbour contributes to each batch
+pub fn c09_witness_next_to_a_backlog(rec: &mut Rec, rng: &mut Rng, n_req: usize) {
+    rec.case("witness-next-to-a-backlog");
+    rec.nontrivial();
+    let mut sim = Sim::new(rec, Cfg::base("C09"));
+    let a = sim.connect(rec);
+    let w = sim.connect(rec);
+    sim.poll(rec);
+    sim.poll(rec);
+    let mut bytes = vec![];
+    for _ in 0..n_req {
+        let j = sim.plans[a].next_req;
+        sim.plans[a].next_req += 1;
+        let t = tag(a, j);
+        bytes.extend_from_slice(format!("GET {} HTTP/1.1\r\n\r\n", t).as_bytes());
+        sim.plans[a].sent.push(t);
+    }
+    sim.w.send(rec, a, &bytes);
+    // one poll: the neighbour is readable (and stays readable: its backlog is longer than one read)
+    sim.poll(rec);
+    let wt = {
+        let j = sim.plans[w].next_req;
+        sim.plans[w].next_req += 1;
+        tag(w, j)
+    };
+    sim.w.send(rec, w, format!("GET {} HTTP/1.1\r\n\r\n", wt).as_bytes());
+    sim.plans[w].sent.push(wt.clone());
+    sim.poll(rec);
+    if !sim.w.yielded.iter().any(|(_, t)| *t == wt) {
+        rec.oracle_fail("C09", &format!("the witness's request was not yielded by the poll that followed it while a neighbour has {} pipelined requests waiting", n_req), &sim.w.log);
+    }
+    // the application answers the witness only; it is served while the neighbour's backlog is still being read
+    if let Some(k) = sim.w.held.iter().position(|h| h.tag == wt) {
+        sim.respond(rec, rng, k);
+    }
+    sim.poll(rec);
+    sim.w.client_read(rec, w);
+    let (resps, _) = split_responses(&sim.w.clients[w].received);
+    if !resps.iter().any(|r| r.0 == 200) {
+        rec.oracle_fail("C09", "the witness was not answered while a neighbour's backlog is being read", &sim.w.log);
+    }
+    sim.settle(rec, rng);
+    common_checks(rec, &mut sim, "C09");
+    check_yield_once(rec, &sim);
+    sim.w.teardown();
+}
+
 pub fn c09(rec: &mut Rec, rng: &mut Rng, thorough: bool) {
+    for n_req in [100usize, 400] {
+        c09_witness_next_to_a_backlog(rec, rng, n_req);
+    }
     for _ in 0..2 {
         c09_failed_write_before_stale_hangup(rec, rng);
     }
